@@ -137,6 +137,8 @@ func clauseCalls(c *Ctx, rel string, cc *ast.CaseClause) []string {
 }
 
 func runC03(c *Ctx) {
+	c03Aliasing(c)
+	c03Kill(c)
 	opt := c.decl(compilerPkg, "Optimizer.OptimizeStatements")
 	kill := c.decl(compilerPkg, "getModifiedVariablesInStmt")
 	if opt == nil || kill == nil {
@@ -215,6 +217,21 @@ func runC03(c *Ctx) {
 				}
 				covered := strings.Contains(calls, "getModifiedVariables("+f+")") || (f == "Cases" && strings.Contains(src, ".Cases") && strings.Contains(calls, "getModifiedVariables(Body)")) || strings.Contains(calls, "getModifiedVariablesInStmt(")
 				c.ob("C03-R2", compilerPkg+".Optimizer.OptimizeStatements#arm:"+form+"-invalidates-."+f, cc.Pos(), covered, "the "+form+" arm does not compute the variables assigned in ."+f+": facts recorded before the statement stay in force after it although that block may change them")
+			}
+			if k == "WhileStatement" || k == "ForStatement" {
+				cl := clauseCalls(c, compilerPkg, cc)
+				lastOpt, lastInv := -1, -1
+				for i, name := range cl {
+					if strings.HasPrefix(name, "OptimizeStatements(") {
+						lastOpt = i
+					}
+					if strings.HasPrefix(name, "invalidate(") || strings.HasPrefix(name, "restoreFacts(") {
+						lastInv = i
+					}
+				}
+				if lastOpt >= 0 {
+					c.ob("C03-R2", compilerPkg+".Optimizer.OptimizeStatements#arm:"+form+"-forgets-body-facts-after-loop", cc.Pos(), lastInv > lastOpt, "the loop body is optimised and what it learnt about the variables it assigns stays in force after the loop, although the loop may run zero times or be left before the assignment (`$ x = 1; while c { x = 5 }; > x` compiles to `> 5`)")
+				}
 			}
 			if k == "IfStatement" {
 				// facts must be reset between and after the branches
@@ -315,6 +332,41 @@ func runC03(c *Ctx) {
 			}
 		})
 		c.ob("C03-R3", compilerPkg+".Optimizer.OptimizeStatements#hoisting-consults-isExprInvariant", fn.Pos(), len(invs) > 0 || !strings.Contains(nodeText(c, opt), "invariant"), "statements are hoisted without consulting isExprInvariant")
+		// what is moved out of the loop is a computation into a fresh temporary, never the program's own
+		// declaration/assignment: on the isExprInvariant-true side no existing statement node (a type-asserted
+		// element of the loop body) is re-emitted as a statement
+		for _, inv := range invs {
+			for _, b := range fn.Blocks {
+				iff := ifOf(b)
+				if iff == nil || !derivesFrom(iff.Cond, func(v ssa.Value) bool { return v == inv }) {
+					continue
+				}
+				// the region entered only when the test (a conjunction containing the call) holds
+				region := b.Succs[0]
+				moved := false
+				var at token.Pos
+				for _, rb := range fn.Blocks {
+					if rb != region && !region.Dominates(rb) {
+						continue
+					}
+					for _, ins := range rb.Instrs {
+						mi, ok := ins.(*ssa.MakeInterface)
+						if !ok || !typeIs(mi.Type(), modPath+"/pkg/ast", "Statement") {
+							continue
+						}
+						if _, fresh := mi.X.(*ssa.Alloc); fresh {
+							continue
+						}
+						if derivesFrom(mi.X, func(v ssa.Value) bool { _, ok := v.(*ssa.TypeAssert); return ok }) {
+							moved, at = true, inv.Pos()
+						}
+					}
+				}
+				if len(region.Preds) == 1 {
+					c.ob("C03-R3", compilerPkg+".Optimizer.OptimizeStatements#licm-hoists-computation-not-declaration", at, !moved, "loop-invariant code motion moves the program's own `$ t = e` out of the loop body: the declaration changes scope (a `t` of the enclosing scope makes the optimised program fail to compile with 'cannot redeclare', a `t` further out is shadowed for the code after the loop) and is executed even when the loop runs zero times")
+				}
+			}
+		}
 	}
 
 	// ---- R4 folding cannot trap
@@ -455,26 +507,59 @@ func runC03(c *Ctx) {
 		}
 		c.ob("C03-R5", compilerPkg+".Compiler.Reset#discards-optimizer-facts", rs.Pos(), fresh, "Reset keeps the Optimizer and its fact maps: constants/copies learnt compiling one route are applied to the next route compiled by the same Compiler (setupRoutes compiles all routes with one)")
 	}
+	// every compile unit that hands a body to the optimiser (any function of the package outside the optimiser
+	// itself) does so on a fact set that is new for that unit: Compiler.Reset ran first on every path, or the
+	// Optimizer used is one created by NewOptimizer in this very function
 	for _, fn := range c.srcFuncs(compilerPkg) {
-		if fn.Parent() != nil || fn.Signature.Recv() == nil || !strings.HasPrefix(fn.Name(), "Compile") {
-			continue
+		if fn.Signature.Recv() != nil {
+			if rn := namedOf(fn.Signature.Recv().Type()); rn != nil && rn.Obj().Name() == "Optimizer" {
+				continue
+			}
 		}
-		var optCall ssa.Instruction
+		var optCall *ssa.Call
 		eachInstr(fn, func(_ *ssa.BasicBlock, _ int, ins ssa.Instruction) {
 			if isCallTo(ins, compilerPath+".Optimizer.OptimizeStatements") && optCall == nil {
-				optCall = ins
+				optCall = ins.(*ssa.Call)
 			}
 		})
 		if optCall == nil {
 			continue
 		}
-		q := &pathQuery{fn: fn, target: func(x ssa.Instruction) bool { return x == optCall }, stop: func(x ssa.Instruction) bool {
+		q := &pathQuery{fn: fn, target: func(x ssa.Instruction) bool { return x == ssa.Instruction(optCall) }, stop: func(x ssa.Instruction) bool {
 			return isCallTo(x, compilerPath+".Compiler.Reset")
 		}}
 		hit, path := q.fromEntry()
-		c.ob("C03-R5", fnKey(fn)+"#resets-before-optimizing", optCall.Pos(), hit == nil, "this entry point optimises without resetting the compiler first", c.blockPath(path)...)
+		ok := hit == nil
+		if !ok {
+			// receiver of the call: loaded from a field of a Compiler allocated here whose optimizer field is a fresh NewOptimizer
+			recv := optCall.Call.Args[0]
+			if u, isLoad := recv.(*ssa.UnOp); isLoad {
+				if fa, isFA := u.X.(*ssa.FieldAddr); isFA {
+					if al, isAl := fa.X.(*ssa.Alloc); isAl {
+						nSt, allFresh := 0, true
+						for _, r := range refs(al) {
+							if fa2, isFA2 := r.(*ssa.FieldAddr); isFA2 && fa2.Field == fa.Field {
+								for _, rr := range refs(fa2) {
+									if st, isSt := rr.(*ssa.Store); isSt && st.Addr == ssa.Value(fa2) {
+										nSt++
+										if !isCallTo(asInstr(st.Val), compilerPath+".NewOptimizer") {
+											allFresh = false
+										}
+									}
+								}
+							}
+						}
+						ok = nSt > 0 && allFresh
+					}
+				}
+			}
+			if isCallTo(asInstr(recv), compilerPath+".NewOptimizer") {
+				ok = true
+			}
+		}
+		c.ob("C03-R5", fnKey(fn)+"#resets-before-optimizing", optCall.Pos(), ok, "this compile unit optimises a body on an Optimizer that still holds the facts of whatever was compiled before it (no Compiler.Reset on some path, and not an Optimizer created here): constants and copies of one body are propagated into the next", c.blockPath(path)...)
 	}
-	c.floor("C03-R5", 3)
+	c.floor("C03-R5", 6)
 
 	// ---- R6 level plumbing
 	c.rule("C03-R6", "EXH/MPT: OptimizeStatements and OptimizeExpression return their input untouched at OptNone (the level test is the first branch and its true edge returns the parameter); jit tier -> level mapping is total (C15-R4)")
@@ -504,6 +589,416 @@ func runC03(c *Ctx) {
 			}
 		}
 	}
+}
+
+// c03Aliasing: R7 (fact tables are never aliased) and R8 (the optimiser never writes into a syntax-tree node it was given).
+func c03Aliasing(c *Ctx) {
+	c.rule("C03-R7", "ALIAS: every map stored into a field of Optimizer / optimizerFacts that outlives the statement (the receiver, a parameter, a returned value) is a fresh map - made in that function or returned fresh by a package function - never another fact table's map: a snapshot that shares its maps with the live facts is modified by the branch it is meant to undo")
+	fns := c.srcFuncs(compilerPkg)
+	isFactOwner := func(n *types.Named) bool {
+		return n != nil && n.Obj().Pkg() != nil && n.Obj().Pkg().Path() == modPath+"/"+compilerPkg && (n.Obj().Name() == "Optimizer" || n.Obj().Name() == "optimizerFacts")
+	}
+	var freshMap func(v ssa.Value, d int) bool
+	returnsFresh := map[*ssa.Function]int{} // 0 unknown, 1 yes, 2 no
+	freshMap = func(v ssa.Value, d int) bool {
+		if d > 24 {
+			return false
+		}
+		switch x := v.(type) {
+		case *ssa.MakeMap:
+			return true
+		case *ssa.Const:
+			return x.IsNil()
+		case *ssa.Phi:
+			for _, e := range x.Edges {
+				if !freshMap(e, d+1) {
+					return false
+				}
+			}
+			return true
+		case *ssa.Field: // field of a struct value: the struct must come from a call returning fresh maps
+			return freshMap(x.X, d+1)
+		case *ssa.Extract:
+			return freshMap(x.Tuple, d+1)
+		case *ssa.UnOp:
+			if x.Op != token.MUL {
+				return false
+			}
+			switch a := x.X.(type) {
+			case *ssa.FieldAddr: // load of a field of a local struct cell
+				if al, ok := a.X.(*ssa.Alloc); ok {
+					return cellFieldFresh(al, a.Field, freshMap, d+1)
+				}
+				return false
+			case *ssa.Alloc:
+				okAll, n := true, 0
+				for _, r := range refs(a) {
+					if st, ok := r.(*ssa.Store); ok && st.Addr == ssa.Value(a) {
+						n++
+						if !freshMap(st.Val, d+1) {
+							okAll = false
+						}
+					}
+				}
+				return okAll && n > 0
+			}
+			return false
+		case *ssa.Call:
+			g := staticFn(x)
+			if g == nil || g.Pkg == nil || g.Pkg.Pkg.Path() != modPath+"/"+compilerPkg {
+				return false
+			}
+			switch returnsFresh[g] {
+			case 1:
+				return true
+			case 2:
+				return false
+			}
+			returnsFresh[g] = 2 // recursion guard
+			okAll, n := true, 0
+			eachInstr(g, func(_ *ssa.BasicBlock, _ int, ins ssa.Instruction) {
+				if r, ok := ins.(*ssa.Return); ok {
+					for _, rv := range retVals(r) {
+						n++
+						// struct result: every map field fresh
+						if stt, ok := rv.Type().Underlying().(*types.Struct); ok {
+							for i := 0; i < stt.NumFields(); i++ {
+								if _, isMap := stt.Field(i).Type().Underlying().(*types.Map); !isMap {
+									continue
+								}
+								if !structFieldFresh(rv, i, freshMap, d+1) {
+									okAll = false
+								}
+							}
+						} else if _, isMap := rv.Type().Underlying().(*types.Map); isMap {
+							if !freshMap(rv, d+1) {
+								okAll = false
+							}
+						}
+					}
+				}
+			})
+			if okAll && n > 0 {
+				returnsFresh[g] = 1
+				return true
+			}
+			return false
+		}
+		return false
+	}
+	n := 0
+	for _, fn := range fns {
+		k := 0
+		eachInstr(fn, func(_ *ssa.BasicBlock, _ int, ins ssa.Instruction) {
+			st, ok := ins.(*ssa.Store)
+			if !ok {
+				return
+			}
+			if _, isMap := st.Val.Type().Underlying().(*types.Map); !isMap {
+				return
+			}
+			fa, ok := st.Addr.(*ssa.FieldAddr)
+			if !ok {
+				return
+			}
+			named, fld, ok := fieldOf(st.Addr)
+			if !ok || !isFactOwner(named) {
+				return
+			}
+			// a cell that never leaves the function and is only read back here is a temporary (e.g. the
+			// throw-away Optimizer that restoreFacts copies from)
+			if al, ok := fa.X.(*ssa.Alloc); ok && !escapesAsOwner(al) {
+				return
+			}
+			k++
+			n++
+			c.ob("C03-R7", fnKey(fn)+"#fact-map-stored-fresh:"+fld+"-"+itoa(k), st.Pos(), freshMap(st.Val, 0),
+				"the map stored into "+named.Obj().Name()+"."+fld+" is not a fresh map but one that another fact table (snapshot, parameter) still refers to: optimising the other branch writes into the snapshot, the restore that follows undoes nothing, and facts learnt on a path that may not execute survive the join")
+		})
+	}
+	c.Sites["C03-R7#fact-map-stores"] = n
+	c.floor("C03-R7", 6)
+
+	c.rule("C03-R8", "ALIAS: optimiser code never stores into a field of a syntax-tree node it did not allocate itself (store through a pointer to a pkg/ast type whose base is not a fresh allocation of this function): the caller's tree - shared between optimisation levels, JIT tiers and repeated compilations, or built through the library API with shared nodes - keeps its meaning")
+	nSt := 0
+	for _, fn := range fns {
+		top := topParent(fn)
+		if top.Signature.Recv() == nil {
+			continue
+		}
+		if rn := namedOf(top.Signature.Recv().Type()); rn == nil || rn.Obj().Name() != "Optimizer" {
+			continue
+		}
+		k := 0
+		eachInstr(fn, func(_ *ssa.BasicBlock, _ int, ins ssa.Instruction) {
+			st, ok := ins.(*ssa.Store)
+			if !ok {
+				return
+			}
+			base := st.Addr
+			for {
+				switch a := base.(type) {
+				case *ssa.FieldAddr:
+					base = a.X
+					continue
+				case *ssa.IndexAddr:
+					base = a.X
+					continue
+				}
+				break
+			}
+			if base == st.Addr {
+				return
+			}
+			pt, ok := base.Type().Underlying().(*types.Pointer)
+			if !ok {
+				return
+			}
+			en := namedOf(pt.Elem())
+			if en == nil || en.Obj().Pkg() == nil || en.Obj().Pkg().Path() != modPath+"/pkg/ast" {
+				return
+			}
+			nSt++
+			fresh := false
+			if al, ok := base.(*ssa.Alloc); ok {
+				fresh = true
+				_ = al
+			}
+			if !fresh {
+				k++
+				c.ob("C03-R8", fnKey(fn)+"#writes-into-given-ast-node:"+en.Obj().Name()+"-"+itoa(k), st.Pos(), false,
+					"the optimiser assigns to a field of an *ast."+en.Obj().Name()+" it received (not one it allocated): facts that hold at this program point leak to every other holder of the node, and compiling the same tree again at another level no longer sees the original program")
+			}
+		})
+	}
+	c.Sites["C03-R8#stores-into-ast-nodes-examined"] = nSt
+	c.ob("C03-R8", compilerPkg+".Optimizer#never-writes-into-given-ast-nodes", token.NoPos, true, "")
+}
+
+// structFieldFresh: field i of struct value rv (a load of a local cell, or a call result) holds a fresh map.
+func structFieldFresh(rv ssa.Value, i int, freshMap func(ssa.Value, int) bool, d int) bool {
+	if d > 24 {
+		return false
+	}
+	if u, ok := rv.(*ssa.UnOp); ok && u.Op == token.MUL {
+		if al, ok := u.X.(*ssa.Alloc); ok {
+			return cellFieldFresh(al, i, freshMap, d+1)
+		}
+	}
+	if call, ok := rv.(*ssa.Call); ok {
+		return freshMap(call, d)
+	}
+	return false
+}
+
+// cellFieldFresh: every store that can define field i of the local struct cell al stores a fresh map
+// (field stores, and whole-struct stores from another fresh struct value).
+func cellFieldFresh(al *ssa.Alloc, i int, freshMap func(ssa.Value, int) bool, d int) bool {
+	okAll, n := true, 0
+	for _, r := range refs(al) {
+		switch y := r.(type) {
+		case *ssa.FieldAddr:
+			if y.Field != i {
+				continue
+			}
+			for _, rr := range refs(y) {
+				if st, ok := rr.(*ssa.Store); ok && st.Addr == ssa.Value(y) {
+					n++
+					if !freshMap(st.Val, d+1) {
+						okAll = false
+					}
+				}
+			}
+		case *ssa.Store:
+			if y.Addr == ssa.Value(al) {
+				n++
+				if !structFieldFresh(y.Val, i, freshMap, d+1) {
+					okAll = false
+				}
+			}
+		}
+	}
+	return okAll && n > 0
+}
+
+// escapesAsOwner: the cell is returned, stored somewhere, or captured - i.e. may outlive / be seen outside the function.
+// Being the receiver of a method call does not count.
+func escapesAsOwner(al *ssa.Alloc) bool {
+	for _, r := range refs(al) {
+		switch x := r.(type) {
+		case *ssa.FieldAddr, *ssa.UnOp:
+		case *ssa.Call:
+			if len(x.Call.Args) > 0 && x.Call.Args[0] == ssa.Value(al) && !x.Call.IsInvoke() && x.Call.StaticCallee() != nil && x.Call.StaticCallee().Signature.Recv() != nil {
+				for _, a := range x.Call.Args[1:] {
+					if a == ssa.Value(al) {
+						return true
+					}
+				}
+				continue
+			}
+			return true
+		case *ssa.Store:
+			if x.Val == ssa.Value(al) {
+				return true
+			}
+		case *ssa.DebugRef:
+		default:
+			return true
+		}
+	}
+	return false
+}
+
+// c03Kill: R9 - an assignment kills every fact depending on its target before new facts are recorded.
+func c03Kill(c *Ctx) {
+	c.rule("C03-R9", "GEN/KILL: in OptimizeStatements every recording of a fact (update of Optimizer.constants / copies / expressions) is preceded, within the handling of the same statement, by a call to a complete killer for the assigned variable; a complete killer deletes the variable's own entries and sweeps the copy table and the expression table (range + delete on each), so copies of the variable and remembered expressions that read it or are held in it do not outlive the assignment")
+	fn := c.mustFn("C03-R9", compilerPkg, "Optimizer.OptimizeStatements")
+	if fn == nil {
+		return
+	}
+	factMaps := []string{"constants", "copies", "expressions"}
+	isFactMap := func(v ssa.Value) string {
+		for _, f := range factMaps {
+			if loadedFromField(v, "Optimizer", f) {
+				return f
+			}
+		}
+		return ""
+	}
+	// complete killers by shape
+	killer := map[*ssa.Function]bool{}
+	for _, g := range c.srcFuncs(compilerPkg) {
+		if g.Parent() != nil || g.Signature.Recv() == nil {
+			continue
+		}
+		deletes := map[string]bool{}
+		ranges := map[string]bool{}
+		eachInstr(g, func(_ *ssa.BasicBlock, _ int, ins ssa.Instruction) {
+			switch x := ins.(type) {
+			case *ssa.Call:
+				if callName(x) == "builtin.delete" {
+					if f := isFactMap(x.Call.Args[0]); f != "" {
+						deletes[f] = true
+					}
+				}
+			case *ssa.Range:
+				if f := isFactMap(x.X); f != "" {
+					ranges[f] = true
+				}
+			}
+		})
+		if deletes["constants"] && deletes["copies"] && deletes["expressions"] && ranges["copies"] && ranges["expressions"] {
+			killer[g] = true
+		}
+	}
+	// bulk killers: call a killer for every element of a set
+	for round := 0; round < 2; round++ {
+		for _, g := range c.srcFuncs(compilerPkg) {
+			if g.Parent() != nil || killer[g] || g == fn {
+				continue
+			}
+			calls, other := false, false
+			eachInstr(g, func(_ *ssa.BasicBlock, _ int, ins ssa.Instruction) {
+				switch x := ins.(type) {
+				case *ssa.Call:
+					if sf := staticFn(x); sf != nil && killer[sf] {
+						calls = true
+					}
+				case *ssa.MapUpdate:
+					other = true
+				}
+			})
+			if calls && !other && g.Signature.Recv() != nil && g.Signature.Results().Len() == 0 {
+				killer[g] = true
+			}
+		}
+	}
+	c.ob("C03-R9", compilerPkg+".Optimizer#complete-killer-exists", fn.Pos(), len(killer) > 0, "no Optimizer method deletes a variable's entries from all three fact tables and sweeps the copy and expression tables: reassigning a variable leaves copies of its old value and expressions computed from it in force")
+	if len(killer) == 0 {
+		return
+	}
+	// outermost statement loop
+	var outer *loop
+	for _, lp := range naturalLoops(fn) {
+		if outer == nil || len(lp.body) > len(outer.body) {
+			outer = lp
+		}
+	}
+	if outer == nil {
+		c.undecided("C03-R9: OptimizeStatements has no statement loop")
+		return
+	}
+	isKill := func(x ssa.Instruction) bool {
+		call, ok := x.(*ssa.Call)
+		if !ok {
+			return false
+		}
+		sf := staticFn(call)
+		return sf != nil && killer[sf]
+	}
+	n := 0
+	eachInstr(fn, func(_ *ssa.BasicBlock, _ int, ins ssa.Instruction) {
+		mu, ok := ins.(*ssa.MapUpdate)
+		if !ok {
+			return
+		}
+		f := isFactMap(mu.Map)
+		if f == "" {
+			return
+		}
+		n++
+		q := &pathQuery{fn: fn, target: func(x ssa.Instruction) bool { return x == ins }, stop: isKill,
+			cutEdge: func(b *ssa.BasicBlock, si int) bool { return b.Succs[si] == outer.head && outer.body[b] }}
+		hit, path := q.from(outer.head, 0)
+		c.ob("C03-R9", fnKey(fn)+"#fact-recorded-only-after-kill:"+f+"-"+itoa(n), ins.Pos(), hit == nil,
+			"a fact is written into Optimizer."+f+" on a path that has not killed the facts depending on the assigned variable in this statement: copies of its old value (`$ y = x; x = ...; > y`) and remembered expressions that read it stay in force and later uses are rewritten to stale values", c.blockPath(path)...)
+	})
+	c.Sites["C03-R9#fact-recordings"] = n
+	c.floor("C03-R9", 7)
+	// a remembered expression must not read its own target: the recording of expressions[key] = target is guarded by a test involving both
+	// (decided as: every update of .expressions lies behind a branch on a call taking the key and the target)
+	eachInstr(fn, func(_ *ssa.BasicBlock, _ int, ins ssa.Instruction) {
+		mu, ok := ins.(*ssa.MapUpdate)
+		if !ok || isFactMap(mu.Map) != "expressions" {
+			return
+		}
+		guarded := false
+		for x := ins.Block(); x != nil; x = x.Idom() {
+			p := x.Idom()
+			if p == nil {
+				break
+			}
+			iff := ifOf(p)
+			if iff == nil {
+				continue
+			}
+			if derivesFrom(iff.Cond, func(v ssa.Value) bool {
+				call, ok := v.(*ssa.Call)
+				if !ok || len(call.Call.Args) < 2 {
+					return false
+				}
+				hasKey, hasTarget := false, false
+				for _, a := range call.Call.Args {
+					if a == mu.Key {
+						hasKey = true
+					}
+					if sameVal(a, mu.Value) || a == mu.Value {
+						hasTarget = true
+					}
+				}
+				return hasKey && hasTarget
+			}) {
+				guarded = true
+			}
+		}
+		c.ob("C03-R9", fnKey(fn)+"#remembered-expression-does-not-read-its-target@"+itoa(int(ins.Pos())-int(fn.Pos())), ins.Pos(), guarded,
+			"an expression is remembered as held in its target without testing that it does not read that target (`a = a + 1` would record that a holds a+1, which is false one statement later)")
+	})
+}
+
+func asInstr(v ssa.Value) ssa.Instruction {
+	ins, _ := v.(ssa.Instruction)
+	return ins
 }
 
 func nodeText(c *Ctx, n ast.Node) string {
